@@ -217,6 +217,18 @@ func near(v int64, cands []int64) bool {
 
 func account(r *h.Run, sc *scenario, ba *builtArchive, fp *footprint, o observation) {
 	l := sc.Limits
+	if f := sc.Fault; f != nil {
+		k := "fault=" + f.Op
+		if f.Path != "" {
+			k += "(nested archive)"
+		}
+		if o.Faulted == 0 {
+			k += ":not-reached"
+		} else {
+			k += ":" + o.Kind
+		}
+		r.Count(k)
+	}
 	r.Count("result=" + o.Kind)
 	if l.Recursive {
 		r.Count("mode=recursive")
@@ -254,7 +266,7 @@ func account(r *h.Run, sc *scenario, ba *builtArchive, fp *footprint, o observat
 		r.Count("tight:max-depth")
 		tight = true
 	}
-	if len(ba.entries) >= 2 && (tight || fp.Lying || fp.Nesting > 0) {
+	if (len(ba.entries) >= 2 && (tight || fp.Lying || fp.Nesting > 0)) || (sc.Fault != nil && o.Faulted > 0) {
 		k, _ := json.Marshal(sc)
 		r.Distinct(string(k))
 	}
